@@ -679,6 +679,8 @@ def run_comb(st):
 def _ITEMVAL(it):
     if it == 999:
         raise KeyError(it)      # an item the value function does not know: additions of it must be rejected without any effect
+    if it == 101:
+        return 16777217         # 2^24 + 1: exact in float64, not in float32
     return 0 if it >= 100 else it
 
 
